@@ -360,7 +360,8 @@ func (p *path) addRule(
 		if y.desc.FullName() != desc.FullName() {
 			return fmt.Errorf("duplicate rule %v", rule)
 		}
-		return nil // Method already registered.
+		// Method already registered, additional bindings may still be new.
+		return p.addAdditionalBindings(rule, desc, name)
 	}
 
 	m := &method{
@@ -397,6 +398,15 @@ func (p *path) addRule(
 		cursor.methods[verb] = m
 	}
 
+	return p.addAdditionalBindings(rule, desc, name)
+}
+
+// addAdditionalBindings adds the additional bindings of rule to the path.
+func (p *path) addAdditionalBindings(
+	rule *annotations.HttpRule,
+	desc protoreflect.MethodDescriptor,
+	name string,
+) error {
 	for _, addRule := range rule.AdditionalBindings {
 		if len(addRule.AdditionalBindings) != 0 {
 			return fmt.Errorf("nested rules") // TODO: errors...
